@@ -57,7 +57,7 @@ func c09Frame(r *rand.Rand, e gen.Env) []byte {
 	case k < 12:
 		return buildFrame("f6", mac, ips[6+r.Intn(6)])
 	case k < 14:
-		kind := []string{"discover", "request-selecting", "request-reboot", "request-renew", "offer"}[r.Intn(5)]
+		kind := []string{"discover", "request-selecting", "request-reboot", "request-renew", "offer", "decline", "release", "request-selecting"}[r.Intn(8)]
 		m := gen.DHCP(r, e, kind, mac)
 		sp, dp := uint16(68), uint16(67)
 		if m.Op == 2 {
@@ -214,6 +214,21 @@ func (cr *c09Run) apiWorker(proc int, seed int64, nOps int, wg *sync.WaitGroup) 
 		case 16:
 			cr.op("icmp6.StopHunt", func() { st.icmp6.StopHunt(packet.Addr{MAC: mac, IP: ips[6+2*r.Intn(3)]}) })
 		case 17:
+			if r.Intn(2) == 0 {
+				// the DHCP handler's hunt entry points, for the address the MAC was offered / leased
+				cr.op("dhcp.StartHunt/StopHunt", func() {
+					a := packet.Addr{MAC: mac, IP: s.DHCPv4IPOffer(mac)}
+					if !a.IP.IsValid() {
+						a.IP = ips[r.Intn(6)]
+					}
+					if r.Intn(2) == 0 {
+						st.dhcp.StartHunt(a)
+					} else {
+						st.dhcp.StopHunt(a)
+					}
+				})
+				break
+			}
 			cr.op("dhcp.MinuteTicker", func() { st.dhcp.MinuteTicker(time.Now().Add(time.Duration(r.Intn(5)) * time.Hour)) })
 		case 18:
 			cr.op("handler.PrintTable", func() {
